@@ -20,17 +20,24 @@ from vlib.shrink import ddmin
 
 TICKS = 1024
 WALL_PER_RUN = 60.0
+MAX_CALLS = 40000        # a run is also ended (like at the virtual deadline) after this many calls of the poll thread
 
 META = {
-    'level_text': 'Theorems over the Lean model of the poll loop (all environments: durations, outcomes, clock advances, '
-                  'triggers): errors_contained, due_polled_this_turn / not_due_not_polled, nopoll_never_read, '
-                  'interval_change_next_wakeup, main_gap_bound (interval + one sweep, explicit), slow_refresh_bound '
-                  '(see design_notes/C13.md for which are full and which partial).  The model is tied to '
-                  'frappy/modulebase.py by replaying every recorded environment through the Lean `turn` and comparing the '
-                  'call lists; the Lean monitors check the FULL bounds on every implementation trace.',
+    'level_text': 'Theorems over the Lean model of the poll thread body (Timed/Poller.lean), all proved in full: errors_contained '
+                  '(successor state and call list of a turn independent of every outcome, every environment), nopoll_never_read '
+                  '(the monitor clause NoPollNeverRead for every trace of prologue + any number of turns, every environment), '
+                  'interval_change_triggers / _wakes / _next_wakeup (every environment), due_polled_this_turn, not_due_not_polled, '
+                  'main_gap_bound (consecutive doPoll starts <= max(I,D) + (n-1)(D+E) + D + 2E <= interval + one sweep, any n, any '
+                  'intervals) and slow_refresh_bound(_thread) (clock <= latest refresh + 1.5*slow + (2N+2)*sweep + 2) for quiet '
+                  '(other threads only trigger) environments with durations <= D and clock steps <= E.  The model is tied to '
+                  'frappy/modulebase.py by replaying every recorded environment of the real _Module__pollThread (virtual time) through '
+                  'the Lean `turn` and comparing the call lists; the Lean monitors check the full bounds, incl. run-time interval '
+                  'changes, on every implementation trace.',
     'level_note': 'Trusted: Lean kernel + axioms propext/Classical.choice/Quot.sound; vlib.sched virtual clock (1 tick = 2^-10 s, '
-                  'all intervals/durations multiples of it so that the float arithmetic of the loop is exact); OS scheduling '
-                  'latency and the GIL are outside the model.',
+                  'all intervals/durations multiples of it so that the float arithmetic of the loop is exact); the ghost fields '
+                  'lastStart/refreshed of the model (pinned by refreshed_is_a_refresh); interval changes during a run are covered '
+                  'per step and by the monitor, not by the two run-level bounds (hypothesis Quiet); OS scheduling latency and the '
+                  'GIL are outside the model.',
     'trusted': [
         'virtual time: every clock read advances by >= 1 tick; durations are those the fake drivers sleep on the patched clock',
         'instrumentation: mobj.callPollFunc / writeInitParams / triggerPoll.wait are wrapped on the instances (the originals run inside)',
@@ -90,6 +97,7 @@ class Rec:
         self.event = None
         self.flag0 = False
         self.incomplete = None
+        self.t_end = None
 
     def now(self):
         return _tick(self.s.now)
@@ -132,7 +140,8 @@ class Rec:
         if self.s.aborting:
             # the run was stopped in the middle of this call: its start is an observation for the judge (the function
             # WAS started), but there is no duration/outcome to replay in the model
-            self.incomplete = [c['t'], c['m'], c['f'], max(0, self.now() - c['t'])]
+            if self.t_end is None:
+                self.incomplete = [c['t'], c['m'], c['f'], max(0, self.now() - c['t'])]
             return
         c['d'] = self.now() - c['t']
         c['o'] = self.outcome
@@ -146,6 +155,10 @@ class Rec:
         self.ext_begin = None
         self.calls.append(c)
         self.mclock = self.now()
+        del self.s.trace[:]          # the scheduler's label trace is not used here; keep memory flat
+        if len(self.calls) >= MAX_CALLS and not self.s.aborting:
+            self.t_end = self.now()
+            self.s._abort('done')
 
 
 OUTCOMES = ['ok', 'secop', 'silent', 'comm', 'commsilent', 'zd', 'key', 'attr']
@@ -597,7 +610,7 @@ def impl_run(case):
         'waits': rec.waits,
         'clock0': start,
         'loopStart': rec.loop_start if rec.loop_start is not None else (rec.mclock or start),
-        'tEnd': state.get('tEnd', start + T_end),
+        'tEnd': rec.t_end if rec.t_end is not None else state.get('tEnd', start + T_end),
         'alive': alive,
         'error': type(err).__name__ if err is not None else None,
         'exited': state['exited'],
